@@ -302,7 +302,19 @@ def run_spec(S, oracle_classes, wall=20, keep=False):
             for o in R.oracles:
                 o.start()
             phase = phase_box[0] = "run"
+            counted = False
             for op in S["plan"]:
+                if op[0] == "cust" and len(op) > 3 and op[3] == "more":
+                    # the caller asks for n MORE customers than the run has counted so far (a count already reached is outside C14's statement)
+                    have = {"Arrive": sim.nodes[0].number_of_individuals, "Accept": sim.nodes[0].number_accepted_individuals,
+                            "Finish": sim.nodes[-1].number_of_individuals, "Complete": sim.nodes[-1].number_of_completed_individuals}[op[2]]
+                    op = ["cust", have + op[1], op[2]]
+                    counted = True
+                if op[0] == "time" and counted and R.t is not None and not (R.t < op[1]):
+                    # a horizon that the clock has already passed (the count ran further) is a caller error, not a run
+                    R.counts["F8:horizon_already_passed_skipped"] += 1
+                    R.seg += 1
+                    continue
                 R.op = op
                 if op[0] == "time":
                     sim.simulate_until_max_time(op[1])
